@@ -11,3 +11,30 @@ pub use compiler_state::*;
 pub use source_files::*;
 pub use watch::handle_watch_command;
 pub use with_duration::*;
+
+/// Verification hooks: re-exports of crate-private planning/apply functions and the event
+/// categorisation, plus a fault-injection plan for `apply_file_system_operations`.
+#[cfg(feature = "isographlabs_isograph_verif")]
+pub mod verif {
+    pub use crate::watch::verif_categorize_and_filter_events as categorize_and_filter_events;
+    pub use crate::write_artifacts::verif_fault::{FaultKind, FaultPlan, operations_seen, set_fault_plan};
+
+    pub fn get_file_system_operations(
+        paths_and_contents: &[common_lang_types::ArtifactPathAndContent],
+        artifact_directory: &std::path::Path,
+        file_system_state: &mut Option<artifact_content::FileSystemState>,
+    ) -> Vec<common_lang_types::FileSystemOperation> {
+        crate::write_artifacts::get_file_system_operations(
+            paths_and_contents,
+            artifact_directory,
+            file_system_state,
+        )
+    }
+
+    pub fn apply_file_system_operations(
+        operations: &[common_lang_types::FileSystemOperation],
+        artifacts: &[common_lang_types::ArtifactPathAndContent],
+    ) -> common_lang_types::LocationFreeDiagnosticResult<usize> {
+        crate::write_artifacts::apply_file_system_operations(operations, artifacts)
+    }
+}
